@@ -50,7 +50,7 @@ impl Default for FuncCfg {
     }
 }
 
-pub const ID_POOL: [u64; 12] = [
+pub const ID_POOL: [u64; 20] = [
     0,
     1,
     2,
@@ -58,12 +58,40 @@ pub const ID_POOL: [u64; 12] = [
     5,
     8,
     13,
+    // around the word sizes (bit sets, small tables)
+    31,
+    32,
+    63,
+    64,
+    65,
+    255,
+    256,
     1000,
     1 << 32,
+    (1 << 32) + 5,
     (1 << 53) + 1,
     u64::MAX - 1,
     u64::MAX,
 ];
+
+/// sizes around the powers of two (block sizes, inline buffers, thresholds of size-dependent algorithms)
+pub const SIZES: [usize; 17] = [9, 15, 16, 17, 31, 32, 33, 63, 64, 65, 127, 128, 129, 255, 256, 257, 300];
+
+/// A pure function of (seed, i): small non-zero dyadic coefficient k/16, |k| <= 64. Used for structures that are
+/// too large to spend tape bytes on every element; the tape supplies `seed`, so replay and shrinking still work.
+pub fn derived_coeff(seed: u64, i: u64) -> f64 {
+    let mut z = seed.wrapping_mul(0x9E37_79B9_7F4A_7C15).wrapping_add(i.wrapping_mul(0xBF58_476D_1CE4_E5B9)).wrapping_add(0x94D0_49BB_1331_11EB);
+    z = (z ^ (z >> 30)).wrapping_mul(0xBF58_476D_1CE4_E5B9);
+    z = (z ^ (z >> 27)).wrapping_mul(0x94D0_49BB_1331_11EB);
+    z ^= z >> 31;
+    let k = (z % 129) as i64 - 64;
+    (if k == 0 { 3 } else { k }) as f64 / 16.0
+}
+
+/// like `derived_coeff` but a value k/8 that may be zero
+pub fn derived_value(seed: u64, i: u64) -> f64 {
+    derived_coeff(seed ^ 0x5555, i) * 2.0 * if derived_coeff(seed ^ 0xAAAA, i) > 3.5 { 0.0 } else { 1.0 }
+}
 
 /// A small id universe for one case (so that terms collide): 1..=6 ids.
 pub fn gen_ids(t: &mut Tape, max: usize) -> Vec<u64> {
